@@ -7,6 +7,7 @@ import (
 	"fmt"
 	"go/types"
 	"hash/crc32"
+	"os"
 	"strings"
 
 	"golang.org/x/tools/go/ssa"
@@ -153,13 +154,13 @@ func init() {
 			if !c.IsTrue() {
 				r, m := it.sat(c)
 				if r == "unsat" {
-					panic(pathEnd{"assume-false", "vAssume infeasible at " + it.curSite})
+					panic(pathEnd{"assume-false", "vAssume infeasible at " + it.site()})
 				}
 				if r == "sat" {
 					it.model = m
 				} else {
 					it.model = nil
-					it.notes = append(it.notes, "vAssume feasibility unknown at "+it.curSite)
+					it.notes = append(it.notes, "vAssume feasibility unknown at "+it.site())
 				}
 				it.assume(c)
 			}
@@ -184,6 +185,28 @@ func init() {
 				}
 			}
 			return it.ctx.BV(uint64(n), 64)
+		},
+		"vRunPendingAt": func(it *Interp, fn *ssa.Function, a []Value) Value {
+			want, _ := a[0].(*StrV).concrete()
+			k := it.term(a[1], "k")
+			if !k.IsConst() {
+				it.inconclusive("vRunPendingAt with symbolic index")
+			}
+			n := 0
+			for _, p := range it.pending {
+				if want == "" || strings.Contains(p.label, want) {
+					if n == int(k.V) {
+						if p.done {
+							return it.ctx.False
+						}
+						p.done = true
+						it.callValue(p.fnv, p.args, p.call)
+						return it.ctx.True
+					}
+					n++
+				}
+			}
+			return it.ctx.False
 		},
 		"vPendingCount": func(it *Interp, fn *ssa.Function, a []Value) Value {
 			want, _ := a[0].(*StrV).concrete()
@@ -344,22 +367,26 @@ func hChoice(it *Interp, fn *ssa.Function, a []Value) Value {
 func hAssert(it *Interp, fn *ssa.Function, a []Value) Value {
 	c := it.term(a[0], "vAssert")
 	msg, _ := a[1].(*StrV).concrete()
-	it.job.noteAssert(it.curSite + " " + msg)
+	it.job.noteAssert(it.site() + " " + msg)
 	if c.IsTrue() {
 		it.job.noteTrivial()
 		return nil
+	}
+	if d := os.Getenv("SYMGO_DUMP"); d != "" {
+		it.names["dump"]++
+		os.WriteFile(fmt.Sprintf("%s/q_%s_%d_%d.smt2", d, it.job.ID, len(it.taken), it.names["dump"]), []byte(it.sol.Script(it.ctx.Not(c))), 0o644)
 	}
 	r, m := it.sat(it.ctx.Not(c))
 	switch r {
 	case "unsat":
 		it.job.noteDischarged(it, c, msg)
 	case "sat":
-		it.violations = append(it.violations, Violation{Msg: msg, Site: it.curSite, Model: m, Kind: "assert", Decisions: append([]int{}, it.taken...)})
+		it.violations = append(it.violations, Violation{Msg: msg, Site: it.site(), Model: m, Kind: "assert", Decisions: append([]int{}, it.taken...)})
 		if it.job.StopAtViolation {
 			panic(pathEnd{"stop", "violation"})
 		}
 	default:
-		it.job.noteUnknown(it.curSite + " " + msg)
+		it.job.noteUnknown(it.site() + " " + msg)
 	}
 	// continue under the asserted condition
 	if c.IsFalse() {
@@ -850,7 +877,7 @@ func (it *Interp) indexByte(b []*Term, c *Term, last bool) Value {
 		}
 		conds[n] = none
 	}
-	d := it.decide(conds, "indexbyte@"+it.curSite)
+	d := it.decide(conds, "indexbyte@"+it.site())
 	if d == n {
 		return ctx.BV(^uint64(0), 64)
 	}
@@ -891,7 +918,7 @@ func (it *Interp) indexString(s, sub []*Term) Value {
 		none = ctx.And(none, ctx.Not(hit))
 	}
 	conds[n] = none
-	d := it.decide(conds, "indexstring@"+it.curSite)
+	d := it.decide(conds, "indexstring@"+it.site())
 	if d == n {
 		return ctx.BV(^uint64(0), 64)
 	}
@@ -936,7 +963,7 @@ func mStringsLastIndex(it *Interp, fn *ssa.Function, a []Value) Value {
 		none = ctx.And(none, ctx.Not(hit))
 	}
 	conds[n] = none
-	d := it.decide(conds, "lastindex@"+it.curSite)
+	d := it.decide(conds, "lastindex@"+it.site())
 	if d == n {
 		return ctx.BV(^uint64(0), 64)
 	}
@@ -980,7 +1007,7 @@ func mMutexLock(it *Interp, fn *ssa.Function, a []Value) Value {
 		if it.sched != nil {
 			it.sched.blockOn(it, func() bool { return it.mutex[c] == 0 }, "mutex")
 		} else {
-			panic(pathEnd{"blocked", "deadlock: Lock of a held mutex at " + it.curSite})
+			panic(pathEnd{"blocked", "deadlock: Lock of a held mutex at " + it.site()})
 		}
 	}
 	it.mutex[c] = -1
@@ -997,7 +1024,7 @@ func mMutexTryLock(it *Interp, fn *ssa.Function, a []Value) Value {
 func mMutexUnlock(it *Interp, fn *ssa.Function, a []Value) Value {
 	c := it.mutexCell(a[0])
 	if it.mutex[c] != -1 {
-		panic(&goPanic{msg: "sync: unlock of unlocked mutex", runtime: true, site: it.curSite})
+		panic(&goPanic{msg: "sync: unlock of unlocked mutex", runtime: true, site: it.site()})
 	}
 	it.mutex[c] = 0
 	return nil
@@ -1008,7 +1035,7 @@ func mRLock(it *Interp, fn *ssa.Function, a []Value) Value {
 		if it.sched != nil {
 			it.sched.blockOn(it, func() bool { return it.mutex[c] != -1 }, "rwmutex")
 		} else {
-			panic(pathEnd{"blocked", "deadlock: RLock of a write-held mutex at " + it.curSite})
+			panic(pathEnd{"blocked", "deadlock: RLock of a write-held mutex at " + it.site()})
 		}
 	}
 	it.mutex[c]++
@@ -1017,7 +1044,7 @@ func mRLock(it *Interp, fn *ssa.Function, a []Value) Value {
 func mRUnlock(it *Interp, fn *ssa.Function, a []Value) Value {
 	c := it.mutexCell(a[0])
 	if it.mutex[c] <= 0 {
-		panic(&goPanic{msg: "sync: RUnlock of unlocked RWMutex", runtime: true, site: it.curSite})
+		panic(&goPanic{msg: "sync: RUnlock of unlocked RWMutex", runtime: true, site: it.site()})
 	}
 	it.mutex[c]--
 	return nil
@@ -1034,7 +1061,7 @@ func (it *Interp) wgAdd(v Value, d int) Value {
 	c := it.mutexCell(v)
 	it.mutex[c] += d
 	if it.mutex[c] < 0 {
-		panic(&goPanic{msg: "sync: negative WaitGroup counter", runtime: true, site: it.curSite})
+		panic(&goPanic{msg: "sync: negative WaitGroup counter", runtime: true, site: it.site()})
 	}
 	return nil
 }
@@ -1060,7 +1087,7 @@ func mWGWait(it *Interp, fn *ssa.Function, a []Value) Value {
 			}
 		}
 		if it.mutex[c] != 0 {
-			panic(pathEnd{"blocked", "WaitGroup.Wait would block at " + it.curSite})
+			panic(pathEnd{"blocked", "WaitGroup.Wait would block at " + it.site()})
 		}
 	}
 	return nil
